@@ -206,7 +206,7 @@ def run_C16(w):
     # usage: every subset of the four sources, with empty and non-empty values
     for n in range(5):
         for srcs in itertools.combinations(['file', 'c', 'm', 'e'], n):
-            for cval, evalv in (('x = 1', "'y = 2'"), ('', "''"), ('', "'y = 2'"), ('x = 1', "''")):
+            for cval, evalv in (('x = 1', "'y = 2'"), ('', "''"), ('', "'y = 2'"), ('x = 1', "''"), ("'json.scanner'", "'json.scanner'"), ('json.scanner', "'json.scanner'"), ('json.scanner', 'json.scanner')):
                 inputs.append({'kind': 'cliusage', 'sources': list(srcs), 'c': cval, 'e': evalv, 'm': 'json.scanner', 'flags': rng.choice([[], ['--json']])})
     for i, inp in enumerate(inputs):
         if i % w.nshards == w.shard:
